@@ -354,6 +354,11 @@ class Filt:
 
     def __imul__(s, o):
         assert isinstance(o, ExpArr) and len(o.c) == s.n
+        if s.dtype == 'c8':
+            # complex128 -> complex64 is a same-kind cast: NumPy allows it in place and rounds the product to single precision
+            s.vals = [('f', k, o.c[k]) for k in range(s.n)]
+            s.written = True
+            return s
         if s.dtype != 'c16':
             # NumPy: in-place multiplication of a real (or narrower complex) array by a complex128 array cannot be cast back
             raise TypeError("Cannot cast ufunc 'multiply' output from dtype('complex128') to dtype('%s') with casting rule 'same_kind'" % s.dtype)
@@ -364,7 +369,16 @@ class Filt:
 
 class CNP:
     complex128 = 'c16'
+    complex64 = 'c8'
     pi = PiTok()
+
+    @staticmethod
+    def iscomplexobj(f):
+        return f.dtype in ('c16', 'c8')
+
+    @staticmethod
+    def isrealobj(f):
+        return f.dtype not in ('c16', 'c8')
 
     @staticmethod
     def arange(a, b):
@@ -431,7 +445,7 @@ def run_circshift(cfg):
                 if dft_given and n + start > D + 1:
                     continue
                 for copy in (True, False):
-                    for dt in ('c16', 'f8'):
+                    for dt in ('c16', 'f8', 'c8'):
                         def body():
                             c = Ctx.cur
                             sh = z3.Real('shift')
@@ -452,6 +466,9 @@ def run_circshift(cfg):
                                 d = cph - want
                                 bad.append(z3.ToReal(z3.ToInt(d)) != d)
                                 bad.append(z3.BoolVal(kk != k))
+                            # the response is a 128-bit complex array whatever the segment's type (a single-precision
+                            # segment is not multiplied in place: the product would be rounded to complex64)
+                            bad.append(z3.BoolVal(out.dtype != 'c16'))
                             if copy or dt != 'c16':
                                 bad.append(z3.BoolVal(f.written))
                             else:
@@ -678,7 +695,7 @@ def replay(w):
             sh = 1.5
         for shift in (sh, 1, -2, Dd + 1, 2.5):
             full = np.zeros(max(Dd, 1), dtype=np.complex128)
-            seg = (rng.randn(n) + 1j * rng.randn(n)).astype(np.complex128 if w['dt'] == 'c16' else np.float64)
+            seg = (rng.randn(n) + 1j * rng.randn(n)).astype({'c16': np.complex128, 'c8': np.complex64}.get(w['dt'], np.float64))
             orig = seg.copy()
             try:
                 out = util.circshift_fourier(seg, shift, start, D if w['dft_given'] else None, w['copy'])
@@ -686,6 +703,9 @@ def replay(w):
                 return {'reproduced': True, 'detail': 'circshift_fourier(len=%d, shift=%r, start_idx=%d, dft_size=%s, copy=%s) raised %s: %s'
                         % (n, shift, start, D if w['dft_given'] else None, w['copy'], type(e).__name__, e)}
             want = orig * np.exp(-2j * np.pi * shift * ((np.arange(start, start + n)) % Dd) / Dd)
+            if out.dtype != np.complex128:
+                return {'reproduced': True, 'detail': 'circshift_fourier of a %s segment (copy=%s) returns %s: the product was rounded, |out - shift theorem| = %.3g'
+                        % (seg.dtype, w['copy'], out.dtype, float(np.abs(out - want).max()) if out.shape == want.shape and n else 0.0)}
             if out.shape != want.shape or not np.allclose(out, want, atol=1e-9):
                 return {'reproduced': True, 'detail': 'circshift_fourier differs from the shift theorem (D=%d start=%d len=%d shift=%r)' % (Dd, start, n, shift)}
             if w['copy'] and not np.array_equal(seg, orig):
